@@ -332,7 +332,14 @@ func (multi *MultiEpoch) handleGetBlock(ctx context.Context, conn *requestContex
 						}
 						// if the commission field is a string, convert it to a float
 						if asString, ok := rewardAsMap["commission"].(string); ok {
-							rewardAsMap["commission"] = asFloat(asString)
+							commission, err := asFloat(asString)
+							if err != nil {
+								return &jsonrpc2.Error{
+									Code:    jsonrpc2.CodeInternalError,
+									Message: "Internal error",
+								}, fmt.Errorf("failed to parse the commission %q of a reward: %v", asString, err)
+							}
+							rewardAsMap["commission"] = commission
 						}
 						// if no lamports field, add it and set it to 0
 						if _, ok := rewardAsMap["lamports"]; !ok {
@@ -520,13 +527,13 @@ func (multi *MultiEpoch) handleGetBlock(ctx context.Context, conn *requestContex
 	return nil, nil
 }
 
-func asFloat(s string) float64 {
+func asFloat(s string) (float64, error) {
 	var f float64
 	_, err := fmt.Sscanf(s, "%f", &f)
 	if err != nil {
-		panic(err)
+		return 0, err
 	}
-	return f
+	return f, nil
 }
 
 func mergeTxNodeSlices(slices [][]*ipldbindcode.Transaction) []*ipldbindcode.Transaction {
